@@ -121,7 +121,7 @@ class Ctx:
 
 
 def _trace_path(name):
-    d = os.path.join(util.BUILD, "traces")
+    d = util.TRACES
     os.makedirs(d, exist_ok=True)
     return os.path.join(d, name)
 
